@@ -1807,6 +1807,8 @@ func nsC26Class(msg string) string {
 		return "[c26-asset-mismatch-strictness]"
 	case strings.Contains(msg, "machine fails") && strings.Contains(msg, "insufficient funds"):
 		return "[c26-machine-insufficient-only]"
+	case strings.Contains(msg, "interpreter succeeds, machine fails") && strings.Contains(msg, "tried to request the balance of account world for asset") && strings.Contains(msg, "must be non-negative"):
+		return "[c26-world-balance-var]"
 	case strings.Contains(msg, "machine fails"):
 		return "[c26-machine-fails-only]"
 	default:
@@ -1866,6 +1868,13 @@ func cmdNs(args []string) int {
 			one(c)
 		}
 		return 0
+	}
+	if c26 {
+		for _, line := range c26Directed {
+			sx, err := ParseSx(line)
+			must(err)
+			one(sxCase(sx))
+		}
 	}
 	for i := 0; i < f.N; i++ {
 		one(genNsCase(r, profile))
